@@ -28,6 +28,13 @@ CHECKS = {
               "exhaustive sweep covers all single-structure grids of 1-3 variables x 1-3 groups over tie-producing probability "
               "pools, with repeated types and duplicated structures. Exploration; the grid sub-part is exhaustive for its finite scope."),
         design='4/C02'),
+    'C04': dict(
+        technique="Hypothesis property-based testing: every pre-terminal of a generated ruleset is expanded by the real guesser with stdout captured and compared (Counter) with a model-side expansion; Markov levels against an independent OMEN enumerator",
+        text=("Generated rulesets (groups of any size, all U/L masks, adjacent alpha words, alpha at start/middle/end, spaces, "
+              "non-ASCII and non-BMP values, Markov levels incl. tied probabilities): for every pre-terminal of the model the lines "
+              "written by the real create_guesses must equal the model's product of groups with masks applied, the returned count "
+              "must equal the number of lines, and every loaded value must carry its group's probability. Exploration."),
+        design='4/C04'),
 }
 
 NOT_YET = "check not built yet in this round (design exists in DESIGN.md section 4); not claimed until it runs"
